@@ -85,6 +85,20 @@ CLAIMED["C10"] = dict(
               "QF_BV obligations discharged by z3/cvc5",
     design="§3 C10")
 
+CLAIMED["C13"] = dict(
+    text="Proof of the fail-open combination rule of the sampler chain (pkg/pipeline/sdk, the single implementation used by the trace "
+         "merge): with Sampler.Decide modelled as arbitrary plugin code that may return an error or panic (exceptional-exit model with "
+         "defer/recover), evaluateChainLink reports a verdict as valid only if it has exactly one keep bit per trace; applyChainLink "
+         "can only clear keep bits, never set them, and leaves the mask untouched for an invalid link; EvaluateChainInto returns one "
+         "bit per trace, keeps every trace when there is no (non-nil) sampler, and no panic of a plugin escapes.",
+    note=COMMON_NOTE + "Assumed: plugins do not retain or mutate engine storage; the observer callback has no effect. Narrow claim: "
+         "the fragment guard (banyand/trace/fragment_guard.go), the dropped-trace-id set, the merge loops (channels, timeouts) and "
+         "query-by-trace-id completeness are not decided (proto-typed package, channels) — so 'kept entirely or removed entirely "
+         "together with its index entries' is only covered at the keep/drop decision level of the chain.",
+    technique="contract-based deductive verification: VCs from the typed Go AST (govc) with an exceptional-exit model for panics "
+              "and recover, quantified mask invariants; obligations discharged by z3/cvc5",
+    design="§3 C13")
+
 NOT_APPLICABLE = {
     "C15": "equivalence of two whole query pipelines over generated proto types: translation validation, no function contract states it (DESIGN.md §5)",
     "C17": "whole-cluster equivalence and gRPC/proto-typed transfer code with no type information in this tree (DESIGN.md §5)",
